@@ -5,21 +5,29 @@ From Fsn Require Import Conc ConcDefs.
 Local Open Scope nat_scope.
 
 Section Safety.
-  Context {E X D C R : Type}.
+  Context {E X D C R I K : Type}.
   Variable api : D → C → D * R.
   Variable closed_result : C → R.
-  Notation cstate := (@cstate E X D C R).
-  Notation rpc := (@rpc E X).
+  Variable pre : I → list (@msg E X).
+  Variable hnd : D → I → D * list (@msg E X).
+  Variable env : D → K → option D.
+  Notation cstate := (@cstate E X D C R I K).
+  Notation rpc := (@rpc E X I).
   Notation cpc := (@cpc C R).
-  Notation label := (@label E X C R).
+  Notation label := (@label C R I K).
+  Notation linent := (@linent E X C R I K).
   Notation msg := (@msg E X).
-  Notation item := (@item E X).
-  Notation cstep := (@cstep E X D C R api closed_result).
-  Notation crun := (@crun E X D C R api closed_result).
-  Notation reachable := (@reachable E X D C R api closed_result).
-  Notation thread_step := (@thread_step E X D C R api closed_result).
-  Notation reader_step := (@reader_step E X D C R).
-  Notation cinit := (@cinit E X D C R).
+  Notation cstep := (@cstep E X D C R I K api closed_result pre hnd env).
+  Notation crun := (@crun E X D C R I K api closed_result pre hnd env).
+  Notation reachable := (@reachable E X D C R I K api closed_result pre hnd env).
+  Notation thread_step := (@thread_step E X D C R I K api closed_result).
+  Notation reader_step := (@reader_step E X D C R I K pre hnd).
+  Notation cinit := (@cinit E X D C R I K).
+  Notation seq_run := (@seq_run E X D C R I K api hnd env).
+  Notation seq_results_ok := (@seq_results_ok E X D C R I K api hnd env).
+  Notation entry_ok := (@entry_ok E X D C R I K api hnd env).
+  Notation stream := (@stream E X D C R I K pre).
+  Notation lin_msgs := (@lin_msgs E X C R I K pre).
 
   (* ---------- runs ---------- *)
   Lemma crun_snoc cap cf (s : cstate) ls l :
@@ -60,7 +68,7 @@ Section Safety.
   Lemma cinv_reader cap cf s s' : CInv cap s → reader_step cap cf s = Some s' → CInv cap s'.
   Proof.
     intros [H1 H2 H3 H4 H5 H6 H7 H8 H9 H10 H11 H12 H13] Hs.
-    destruct s as [m dc fc rc eb ec erc r th dt rev rer ln pk]; simpl in *.
+    destruct s as [m dc fc rc eb ec erc r th dt rev rer ln st pk]; simpl in *.
     unfold reader_step in Hs; simpl in Hs.
     destruct r; repeat case_match; simplify_eq; constructor; simpl in *.
     all: try done.
@@ -75,7 +83,7 @@ Section Safety.
   Lemma cinv_thread cap cf s t s' : t ≠ reader_tid → CInv cap s → thread_step cf s t = Some s' → CInv cap s'.
   Proof.
     intros Ht [H1 H2 H3 H4 H5 H6 H7 H8 H9 H10 H11 H12 H13] Hs.
-    destruct s as [m dc fc rc eb ec erc r th dt rev rer ln pk]; simpl in *.
+    destruct s as [m dc fc rc eb ec erc r th dt rev rer ln st pk]; simpl in *.
     unfold Conc.thread_step in Hs; simpl in Hs.
     destruct (th !! t) as [p|] eqn:Hp; [|done].
     pose proof (H2 t Ht) as H2t. rewrite Hp in H2t.
@@ -103,7 +111,7 @@ Section Safety.
   Lemma cinv_consume_ev cap (s s' : cstate) : CInv cap s → consume_ev s = Some s' → CInv cap s'.
   Proof.
     intros [H1 H2 H3 H4 H5 H6 H7 H8 H9 H10 H11 H12 H13] Hs.
-    destruct s as [m dc fc rc eb ec erc r th dt rev rer ln pk]; simpl in *.
+    destruct s as [m dc fc rc eb ec erc r th dt rev rer ln st pk]; simpl in *.
     unfold consume_ev in Hs; simpl in Hs.
     repeat case_match; simplify_eq; constructor; simpl in *.
     all: cinv_fin.
@@ -112,7 +120,7 @@ Section Safety.
   Lemma cinv_consume_er cap (s s' : cstate) : CInv cap s → consume_er s = Some s' → CInv cap s'.
   Proof.
     intros [H1 H2 H3 H4 H5 H6 H7 H8 H9 H10 H11 H12 H13] Hs.
-    destruct s as [m dc fc rc eb ec erc r th dt rev rer ln pk]; simpl in *.
+    destruct s as [m dc fc rc eb ec erc r th dt rev rer ln st pk]; simpl in *.
     unfold consume_er in Hs; simpl in Hs.
     repeat case_match; simplify_eq; constructor; simpl in *.
     all: cinv_fin.
@@ -121,7 +129,7 @@ Section Safety.
   Lemma cinv_kernel cap cf s b s' : CInv cap s → cstep cap cf s (LKernel b) = Some s' → CInv cap s'.
   Proof.
     intros [H1 H2 H3 H4 H5 H6 H7 H8 H9 H10 H11 H12 H13] Hs.
-    destruct s as [m dc fc rc eb ec erc r th dt rev rer ln pk]; simpl in *.
+    destruct s as [m dc fc rc eb ec erc r th dt rev rer ln st pk]; simpl in *.
     repeat case_match; simplify_eq; constructor; simpl in *.
     all: cinv_fin.
   Qed.
@@ -129,10 +137,10 @@ Section Safety.
   Lemma cinv_spawn cap cf s t p s' : CInv cap s → cstep cap cf s (LSpawn t p) = Some s' → CInv cap s'.
   Proof.
     intros [H1 H2 H3 H4 H5 H6 H7 H8 H9 H10 H11 H12 H13] Hs.
-    destruct s as [m dc fc rc eb ec erc r th dt rev rer ln pk]; simpl in *.
+    destruct s as [m dc fc rc eb ec erc r th dt rev rer ln st pk]; simpl in *.
     destruct (decide (t = reader_tid)) as [|Ht]; [done|].
     destruct (th !! t) eqn:Hp; [by destruct p|].
-    assert (∃ s0, Some s0 = Some s' ∧ s0 = upd_thr (mkC m dc fc rc eb ec erc r th dt rev rer ln pk) t p
+    assert (∃ s0, Some s0 = Some s' ∧ s0 = upd_thr (mkC m dc fc rc eb ec erc r th dt rev rer ln st pk) t p
             ∧ thread_in_cs p = false ∧ p ≠ KCloseFile ∧ p ≠ KWaitResp ∧ p ≠ KDone) as (s0 & Hs0 & -> & Hc & Hk1 & Hk2 & Hk3).
     { destruct p; try done; eexists; split; try exact Hs; done. }
     clear Hs. simplify_eq. unfold upd_thr. constructor; simpl in *.
@@ -151,9 +159,17 @@ Section Safety.
       + rewrite lookup_insert_ne in Hl by done. eauto.
   Qed.
 
+  (* an environment step changes the data (and the ghost lin) only *)
+  Lemma cinv_env cap cf s k s' : CInv cap s → cstep cap cf s (LEnv k) = Some s' → CInv cap s'.
+  Proof.
+    intros [H1 H2 H3 H4 H5 H6 H7 H8 H9 H10 H11 H12 H13] Hs.
+    destruct s as [m dc fc rc eb ec erc r th dt rev rer ln st pk]; simpl in *.
+    destruct (env dt k) as [d'|]; [|done]. simplify_eq. by constructor.
+  Qed.
+
   Theorem cinv_step cap cf s l s' : CInv cap s → cstep cap cf s l = Some s' → CInv cap s'.
   Proof.
-    intros HI Hs. destruct l as [t| | |b|t p].
+    intros HI Hs. destruct l as [t| | |b|t p|k].
     - simpl in Hs. destruct (decide (t = reader_tid)) as [->|Ht].
       + by eapply cinv_reader.
       + by eapply cinv_thread.
@@ -161,6 +177,7 @@ Section Safety.
     - by eapply cinv_consume_er.
     - by eapply cinv_kernel.
     - by eapply cinv_spawn.
+    - by eapply cinv_env.
   Qed.
 
   Theorem cinv_reachable cap cf d s : reachable cap cf d s → CInv cap s.
@@ -201,8 +218,8 @@ Section Safety.
   (* ---------- 4. nothing blocks inside a critical section ---------- *)
   Ltac step_cases Hs :=
     match type of Hs with
-    | Conc.cstep _ _ _ _ ?s ?l = Some _ =>
-      destruct s as [m dc fc rc eb ec erc r th dt rev rer ln pk]; destruct l as [t| | |b|t p]; simpl in Hs;
+    | Conc.cstep _ _ _ _ _ _ _ ?s ?l = Some _ =>
+      destruct s as [m dc fc rc eb ec erc r th dt rev rer ln st pk]; destruct l as [t| | |b|t p|k]; simpl in Hs;
       unfold Conc.reader_step, Conc.thread_step, consume_ev, consume_er, upd_thr, upd_rd, upd_mu, after_pre, after_post in Hs;
       simpl in Hs;
       repeat (match type of Hs with context [ match ?x with _ => _ end ] => destruct x eqn:? end;
@@ -231,7 +248,8 @@ Section Safety.
     pose proof (cinv_reachable _ _ _ _ Hr) as HI. split.
     - intros ms a r Hrd. rewrite Hrd in Hn. done.
     - intros Hnone Hmu. apply (ci_reader_mu _ _ HI) in Hmu.
-      unfold Conc.reader_step in Hnone. destruct (rd s); try done. by rewrite Hcf in Hnone.
+      unfold Conc.reader_step in Hnone. destruct (rd s); try done.
+      destruct (hnd (data s) it). by rewrite Hcf in Hnone.
   Qed.
 
   (* a caller or closer inside its critical section can always take its next step *)
@@ -242,6 +260,14 @@ Section Safety.
     unfold Conc.thread_step. rewrite Hp. destruct p; try done.
     - destruct (api (data s) c); eauto.
     - destruct (done_closed s); eauto.
+  Qed.
+
+  (* … and so can the reader inside handleEvent's critical section: computing [hnd] never blocks *)
+  Theorem cs_reader_not_blocked cap cf (s : cstate) it rest :
+    rd s = RInCs it rest → is_Some (cstep cap cf s (LThr reader_tid)).
+  Proof.
+    intros Hrd. unfold Conc.cstep. rewrite decide_True by done. unfold Conc.reader_step. rewrite Hrd.
+    destruct (hnd (data s) it). destruct (cf_send_in_cs cf); eauto.
   Qed.
 
   (* ---------- 5. order and completeness of delivery, for every capacity ---------- *)
@@ -280,6 +306,11 @@ Section Safety.
     induction l1 as [|l l1 IH]; [done|]. destruct l; simpl; try done. by rewrite IH, app_assoc.
   Qed.
 
+  Lemma handled_items_app (l1 l2 : list linent) : handled_items (l1 ++ l2) = handled_items l1 ++ handled_items l2.
+  Proof. induction l1 as [|[c r|i p|k] l1 IH]; simpl; by rewrite ?IH. Qed.
+  Lemma lin_msgs_app (l1 l2 : list linent) : lin_msgs (l1 ++ l2) = lin_msgs l1 ++ lin_msgs l2.
+  Proof. induction l1 as [|[c r|i p|k] l1 IH]; simpl; rewrite ?IH, <- ?app_assoc; done. Qed.
+
   (* the mutex-held sends of handleEvent are error sends only *)
   Definition CsErrOnly (s : cstate) : Prop := match rd s with RCsSend ms _ _ => evs_of ms = [] | _ => True end.
 
@@ -295,132 +326,207 @@ Section Safety.
     intros s l s' _ HI Hs. by eapply cs_err_only_step.
   Qed.
 
-  Definition FifoEv (del : list msg) (s : cstate) : Prop :=
-    ∃ dropped, evs_of del = recvd_ev s ++ ev_buf s ++ evs_of (pending_msgs (rd s)) ++ dropped
-               ∧ (reader_exiting (rd s) = false → dropped = []).
-  Definition FifoEr (del : list msg) (s : cstate) : Prop :=
-    ∃ dropped, ers_of del = recvd_er s ++ ers_of (pending_msgs (rd s)) ++ dropped
-               ∧ (reader_exiting (rd s) = false → dropped = []).
+  (* The stream invariant.  [u]: the items begun but not handled (at most one: the reader's current item, or — once the
+     reader is exiting — the item it abandoned while sending its [pre]); [dE], [dX]: what an exiting reader dropped. *)
+  Definition StreamInv (s : cstate) : Prop :=
+    ∃ (u : list I) (dE : list E) (dX : list X),
+      started s = handled_items (lin s) ++ u ∧ length u ≤ 1 ∧
+      (reader_exiting (rd s) = false → u = cur_items (rd s) ∧ dE = [] ∧ dX = []) ∧
+      evs_of (lin_msgs (lin s) ++ concat (map pre u))
+        = recvd_ev s ++ ev_buf s ++ evs_of (pending_msgs (rd s)) ++ dE ∧
+      ers_of (lin_msgs (lin s) ++ concat (map pre u))
+        = recvd_er s ++ ers_of (pending_msgs (rd s)) ++ dX.
 
-  Lemma fifo_ev_step cap cf del s l s' :
-    CsErrOnly s → FifoEv del s → cstep cap cf s l = Some s' → FifoEv (del ++ delivered [l]) s'.
+  Lemma stream_inv_step cap cf s l s' : CsErrOnly s → StreamInv s → cstep cap cf s l = Some s' → StreamInv s'.
   Proof.
-    unfold CsErrOnly, FifoEv. intros Hc (dr & Heq & Hdr) Hs. rewrite evs_of_app, Heq. clear Heq.
-    step_cases Hs; simpl in *; try specialize (Hdr eq_refl); subst.
+    unfold CsErrOnly, StreamInv. intros Hc (u & dE & dX & Hst & Hlen & Hne & Hev & Her) Hs.
+    exists (if reader_exiting (rd s') then u else cur_items (rd s')),
+           (if reader_exiting (rd s') then evs_of (pending_msgs (rd s)) ++ dE else []),
+           (if reader_exiting (rd s') then ers_of (pending_msgs (rd s)) ++ dX else []).
+    step_cases Hs; simpl in *.
+    all: try match goal with r0 : Conc.rpc |- _ => destruct r0; simpl in * end.
     all: try (rewrite evs_of_cons_ev in Hc; discriminate Hc).
-    all: match goal with
-         | |- ∃ d, _ ∧ (true = false → _) => eexists; split; [rewrite <- ?app_assoc; reflexivity | by intros [=]]
-         | |- ∃ d, _ ∧ (false = false → _) => exists []; split; [|done]
-         | |- _ => exists dr; split; [|exact Hdr]
-         end.
-    all: unfold item_msgs;
-         rewrite ?evs_of_cons_ev, ?evs_of_cons_er, ?evs_of_app, ?evs_of_err_msgs, ?evs_of_ev_msgs, ?evs_of_nil.
-    all: rewrite ?app_nil_r, <- ?app_assoc; simpl; try reflexivity.
+    all: try (destruct (Hne eq_refl) as (-> & -> & ->)); clear Hne.
+    all: subst st.
+    all: rewrite ?handled_items_app, ?lin_msgs_app in *; simpl in *.
+    all: rewrite ?evs_of_app, ?ers_of_app, ?evs_of_cons_ev, ?evs_of_cons_er, ?ers_of_cons_ev, ?ers_of_cons_er,
+                 ?evs_of_err_msgs, ?evs_of_ev_msgs, ?ers_of_err_msgs, ?ers_of_ev_msgs, ?evs_of_nil, ?ers_of_nil in *.
+    all: rewrite ?app_nil_r in *.
+    all: split_and!; try done; try (simpl; lia).
+    all: rewrite <- ?app_assoc; simpl; try done.
+    all: try (rewrite Hev; rewrite <- ?app_assoc; simpl; done).
+    all: try (rewrite Her; rewrite <- ?app_assoc; simpl; done).
+    all: try (rewrite app_assoc, Hev; rewrite <- ?app_assoc; simpl; done).
+    all: try (rewrite app_assoc, Her; rewrite <- ?app_assoc; simpl; done).
+    all: rewrite evs_of_app in Hev; rewrite ers_of_app in Her; done.
   Qed.
 
-  Lemma fifo_er_step cap cf del s l s' :
-    FifoEr del s → cstep cap cf s l = Some s' → FifoEr (del ++ delivered [l]) s'.
+  (* every item the kernel handed over has been begun, or is still in the reader's current batch, or — only once the
+     reader is exiting — was dropped *)
+  Definition ItemsInv (del : list I) (s : cstate) : Prop :=
+    ∃ dropped, del = started s ++ unstarted (rd s) ++ dropped ∧ (reader_exiting (rd s) = false → dropped = []).
+
+  Lemma items_inv_step cap cf del s l s' :
+    ItemsInv del s → cstep cap cf s l = Some s' → ItemsInv (del ++ delivered [l]) s'.
   Proof.
-    unfold FifoEr. intros (dr & Heq & Hdr) Hs. rewrite ers_of_app, Heq. clear Heq.
-    step_cases Hs; simpl in *; try specialize (Hdr eq_refl); subst.
-    all: match goal with
-         | |- ∃ d, _ ∧ (true = false → _) => eexists; split; [rewrite <- ?app_assoc; reflexivity | by intros [=]]
-         | |- ∃ d, _ ∧ (false = false → _) => exists []; split; [|done]
-         | |- _ => exists dr; split; [|exact Hdr]
-         end.
-    all: unfold item_msgs;
-         rewrite ?ers_of_cons_ev, ?ers_of_cons_er, ?ers_of_app, ?ers_of_err_msgs, ?ers_of_ev_msgs, ?ers_of_nil.
-    all: rewrite ?app_nil_r, <- ?app_assoc; simpl; try reflexivity.
+    unfold ItemsInv. intros (dr & Heq & Hdr) Hs.
+    exists (if reader_exiting (rd s') then unstarted (rd s) ++ dr else []). subst del.
+    step_cases Hs; simpl in *.
+    all: try match goal with r0 : Conc.rpc |- _ => destruct r0; simpl in * end.
+    all: try (rewrite (Hdr eq_refl)); clear Hdr.
+    all: rewrite ?app_nil_r, <- ?app_assoc; simpl; done.
   Qed.
 
-  Lemma fifo_run cap cf d ls s :
-    crun cap cf (cinit d) ls = Some s → CsErrOnly s ∧ FifoEv (delivered ls) s ∧ FifoEr (delivered ls) s.
+  Lemma stream_run cap cf d ls s :
+    crun cap cf (cinit d) ls = Some s → CsErrOnly s ∧ StreamInv s ∧ ItemsInv (delivered ls) s.
   Proof.
     revert s. induction ls as [|l ls IH] using rev_ind; intros s Hr.
-    - simpl in Hr. simplify_eq. split; [done|].
-      split; exists []; simpl; by rewrite ?evs_of_nil, ?ers_of_nil.
+    - simpl in Hr. simplify_eq. split; [done|]. split.
+      + exists [], [], []. simpl. rewrite ?evs_of_nil, ?ers_of_nil. split_and!; try done. lia.
+      + by exists [].
     - rewrite crun_snoc in Hr. destruct (crun cap cf (cinit d) ls) as [s0|] eqn:Hr0; [|done].
-      simpl in Hr. destruct (IH s0 eq_refl) as (Hc & Hev & Her). rewrite delivered_app.
-      split; [by eapply cs_err_only_step|]. split; [by eapply fifo_ev_step | by eapply fifo_er_step].
+      simpl in Hr. destruct (IH s0 eq_refl) as (Hc & Hst & Hit). rewrite delivered_app.
+      split; [by eapply cs_err_only_step|]. split; [by eapply stream_inv_step | by eapply items_inv_step].
   Qed.
 
-  (* The statement does not mention cap except as the parameter of crun: what the consumer has received on Events
-     (and what sits in the buffer) is a prefix of the one stream the kernel delivered, for every capacity, every
-     schedule and every consumer pace; nothing is lost or reordered until the reader starts exiting. *)
+  Lemma stream_of_shape (s : cstate) u :
+    started s = handled_items (lin s) ++ u → stream s = lin_msgs (lin s) ++ concat (map pre u).
+  Proof. intros Hst. unfold ConcDefs.stream. by rewrite Hst, drop_app. Qed.
+
+  (* The reader begins items one at a time and handles them in the order it began them: the begun items are the handled
+     ones (in linearisation order) followed by at most one more — the reader's current item.  Hence the stream is the
+     messages of the handled items ([pre i] then the [post] computed in i's critical section), then [pre] of the
+     current item: all of it determined by [pre], [hnd] and the linearisation; nothing else is ever sent. *)
+  Theorem started_shape cap cf d ls s :
+    crun cap cf (cinit d) ls = Some s →
+    ∃ u, started s = handled_items (lin s) ++ u ∧ length u ≤ 1 ∧
+         (reader_exiting (rd s) = false → u = cur_items (rd s)) ∧
+         stream s = lin_msgs (lin s) ++ concat (map pre u).
+  Proof.
+    intros Hr. destruct (stream_run _ _ _ _ _ Hr) as (_ & (u & dE & dX & Hst & Hlen & Hne & _) & _).
+    exists u. split_and!; [done|done| |by apply stream_of_shape]. intros Hex. by destruct (Hne Hex).
+  Qed.
+
+  Theorem items_fifo cap cf d ls s :
+    crun cap cf (cinit d) ls = Some s →
+    ∃ dropped, delivered ls = started s ++ unstarted (rd s) ++ dropped ∧ (reader_exiting (rd s) = false → dropped = []).
+  Proof. intros Hr. by destruct (stream_run _ _ _ _ _ Hr) as (_ & _ & ?). Qed.
+
+  (* The statement does not mention cap except as the parameter of crun: what the consumer has received on Events, then
+     what sits in the buffer, then what the reader is still to send of the messages already determined, is EXACTLY the
+     events of the stream, for every capacity, every schedule and every consumer pace; nothing is lost, duplicated,
+     reordered or invented until the reader starts exiting, and then only a suffix is dropped. *)
   Theorem events_fifo cap cf d ls s :
     crun cap cf (cinit d) ls = Some s →
-    (∃ dropped, evs_of (delivered ls) = recvd_ev s ++ ev_buf s ++ evs_of (pending_msgs (rd s)) ++ dropped
+    (∃ dropped, evs_of (stream s) = recvd_ev s ++ ev_buf s ++ evs_of (pending_msgs (rd s)) ++ dropped
                 ∧ (reader_exiting (rd s) = false → dropped = [])) ∧
     (reader_exiting (rd s) = false →
-     recvd_ev s ++ ev_buf s ++ evs_of (pending_msgs (rd s)) = evs_of (delivered ls)) ∧
-    (recvd_ev s ++ ev_buf s) `prefix_of` evs_of (delivered ls).
+     recvd_ev s ++ ev_buf s ++ evs_of (pending_msgs (rd s)) = evs_of (stream s)) ∧
+    (recvd_ev s ++ ev_buf s) `prefix_of` evs_of (stream s).
   Proof.
-    intros Hr. destruct (fifo_run _ _ _ _ _ Hr) as (_ & (dr & Heq & Hdr) & _). split; [by exists dr|]. split.
-    - intros Hex. rewrite Heq, (Hdr Hex), app_nil_r. done.
-    - rewrite Heq. exists (evs_of (pending_msgs (rd s)) ++ dr). by rewrite <- app_assoc.
+    intros Hr. destruct (stream_run _ _ _ _ _ Hr) as (_ & (u & dE & dX & Hst & Hlen & Hne & Heq & _) & _).
+    rewrite (stream_of_shape _ _ Hst). split; [exists dE; split; [done|]; intros Hex; by destruct (Hne Hex) as (_ & ? & _)|].
+    split.
+    - intros Hex. destruct (Hne Hex) as (_ & -> & _). by rewrite Heq, app_nil_r.
+    - rewrite Heq. exists (evs_of (pending_msgs (rd s)) ++ dE). by rewrite <- app_assoc.
   Qed.
 
   Theorem errors_fifo cap cf d ls s :
     crun cap cf (cinit d) ls = Some s →
-    (∃ dropped, ers_of (delivered ls) = recvd_er s ++ ers_of (pending_msgs (rd s)) ++ dropped
+    (∃ dropped, ers_of (stream s) = recvd_er s ++ ers_of (pending_msgs (rd s)) ++ dropped
                 ∧ (reader_exiting (rd s) = false → dropped = [])) ∧
-    (reader_exiting (rd s) = false → recvd_er s ++ ers_of (pending_msgs (rd s)) = ers_of (delivered ls)) ∧
-    recvd_er s `prefix_of` ers_of (delivered ls).
+    (reader_exiting (rd s) = false → recvd_er s ++ ers_of (pending_msgs (rd s)) = ers_of (stream s)) ∧
+    recvd_er s `prefix_of` ers_of (stream s).
   Proof.
-    intros Hr. destruct (fifo_run _ _ _ _ _ Hr) as (_ & _ & (dr & Heq & Hdr)). split; [by exists dr|]. split.
-    - intros Hex. rewrite Heq, (Hdr Hex), app_nil_r. done.
+    intros Hr. destruct (stream_run _ _ _ _ _ Hr) as (_ & (u & dE & dX & Hst & Hlen & Hne & _ & Heq) & _).
+    rewrite (stream_of_shape _ _ Hst). split; [exists dX; split; [done|]; intros Hex; by destruct (Hne Hex) as (_ & _ & ?)|].
+    split.
+    - intros Hex. destruct (Hne Hex) as (_ & _ & ->). by rewrite Heq, app_nil_r.
     - rewrite Heq. by eexists.
   Qed.
 
-  (* independence from the buffer size: two runs with different capacities (and schedules, consumers, code facts) that
-     were handed the same notifications have received comparable sequences: one is a prefix of the other *)
+  (* the stream only grows at its end: what the reader is committed to send is never revised *)
+  Lemma stream_mono_step cap cf s l s' : StreamInv s → cstep cap cf s l = Some s' → stream s `prefix_of` stream s'.
+  Proof.
+    intros (u & dE & dX & Hst & Hlen & Hne & _ & _) Hs. unfold ConcDefs.stream.
+    step_cases Hs; simpl in *.
+    all: try (destruct (Hne eq_refl) as (-> & _ & _)); clear Hne.
+    all: subst st.
+    all: rewrite ?handled_items_app, ?lin_msgs_app; simpl.
+    all: rewrite ?app_nil_r; try done.
+    all: rewrite ?app_length; simpl; rewrite ?drop_app, ?drop_all, <- ?app_assoc, ?(drop_app_ge _ _ (_ + 1)) by lia; simpl.
+    all: rewrite ?app_nil_r.
+    all: try (by apply prefix_app, prefix_app_r).
+    all: try (by eexists).
+  Qed.
+
+  Theorem stream_mono cap cf d ls1 ls2 s1 s2 :
+    crun cap cf (cinit d) ls1 = Some s1 → crun cap cf s1 ls2 = Some s2 → stream s1 `prefix_of` stream s2.
+  Proof.
+    intros H1. revert ls1 s1 H1. induction ls2 as [|l ls2 IH]; intros ls1 s1 H1 H2; simpl in H2; [by simplify_eq|].
+    destruct (cstep cap cf s1 l) as [s|] eqn:Hs; [|done].
+    etrans; [eapply stream_mono_step; [|exact Hs]; by destruct (stream_run _ _ _ _ _ H1) as (_ & ? & _)|].
+    apply (IH (ls1 ++ [l])); [|done]. by rewrite crun_snoc, H1.
+  Qed.
+
+  (* independence from the buffer size: two runs with different capacities (and schedules, consumers, code facts) whose
+     streams are comparable (in particular: equal) have received comparable sequences: one is a prefix of the other *)
   Corollary capacity_independent cap1 cap2 cf1 cf2 d1 d2 ls1 ls2 s1 s2 :
     crun cap1 cf1 (cinit d1) ls1 = Some s1 → crun cap2 cf2 (cinit d2) ls2 = Some s2 →
-    delivered ls1 = delivered ls2 →
+    stream s1 `prefix_of` stream s2 ∨ stream s2 `prefix_of` stream s1 →
     (recvd_ev s1 `prefix_of` recvd_ev s2 ∨ recvd_ev s2 `prefix_of` recvd_ev s1) ∧
     (recvd_er s1 `prefix_of` recvd_er s2 ∨ recvd_er s2 `prefix_of` recvd_er s1).
   Proof.
     intros H1 H2 Hd.
     destruct (events_fifo _ _ _ _ _ H1) as (_ & _ & Hp1). destruct (events_fifo _ _ _ _ _ H2) as (_ & _ & Hp2).
     destruct (errors_fifo _ _ _ _ _ H1) as (_ & _ & Hq1). destruct (errors_fifo _ _ _ _ _ H2) as (_ & _ & Hq2).
-    rewrite Hd in Hp1, Hq1. split.
-    - apply (prefix_weak_total _ _ (evs_of (delivered ls2))).
-      + etrans; [|exact Hp1]. by eexists.
-      + etrans; [|exact Hp2]. by eexists.
-    - eapply prefix_weak_total; eassumption.
+    assert (recvd_ev s1 `prefix_of` evs_of (stream s1)) as Hr1 by (etrans; [|exact Hp1]; by eexists).
+    assert (recvd_ev s2 `prefix_of` evs_of (stream s2)) as Hr2 by (etrans; [|exact Hp2]; by eexists).
+    clear Hp1 Hp2. destruct Hd as [[k Hk]|[k Hk]].
+    - rewrite Hk in Hr2, Hq2. rewrite evs_of_app in Hr2. rewrite ers_of_app in Hq2. split.
+      + apply (prefix_weak_total _ _ (evs_of (stream s1) ++ evs_of k)); [by apply prefix_app_r | done].
+      + apply (prefix_weak_total _ _ (ers_of (stream s1) ++ ers_of k)); [by apply prefix_app_r | done].
+    - rewrite Hk in Hr1, Hq1. rewrite evs_of_app in Hr1. rewrite ers_of_app in Hq1. split.
+      + apply (prefix_weak_total _ _ (evs_of (stream s2) ++ evs_of k)); [done | by apply prefix_app_r].
+      + apply (prefix_weak_total _ _ (ers_of (stream s2) ++ ers_of k)); [done | by apply prefix_app_r].
   Qed.
 
   (* ---------- 6. linearizability ---------- *)
-  Lemma seq_run_app d (cs1 cs2 : list (C * R)) :
-    seq_run api d (cs1 ++ cs2) = seq_run api d cs1 ≫= λ d1, seq_run api d1 cs2.
+  Lemma seq_run_app d (l1 l2 : list linent) :
+    seq_run d (l1 ++ l2) = seq_run d l1 ≫= λ d1, seq_run d1 l2.
   Proof.
-    revert d. induction cs1 as [|[c r] cs1 IH]; intros d; simpl; [done|]. destruct (api d c). apply IH.
+    revert d. induction l1 as [|[c r|i p|k] l1 IH]; intros d; simpl; [done|apply IH|apply IH|].
+    destruct (env d k); [apply IH|done].
   Qed.
 
-  Lemma seq_results_ok_snoc d cs c r d1 :
-    seq_run api d cs = Some d1 → seq_results_ok api d cs → (api d1 c).2 = r → seq_results_ok api d (cs ++ [(c, r)]).
+  Lemma seq_results_ok_snoc d l e d1 :
+    seq_run d l = Some d1 → seq_results_ok d l → entry_ok d1 e → seq_results_ok d (l ++ [e]).
   Proof.
-    intros Hrun Hok Hr pre c0 r0 post Heq. destruct post as [|x post _] using rev_ind.
+    intros Hrun Hok Hr l1 e0 l2 Heq. destruct l2 as [|x l2 _] using rev_ind.
     - apply app_inj_tail in Heq as [-> Hx]. simplify_eq. eauto.
     - rewrite app_comm_cons, app_assoc in Heq. apply app_inj_tail in Heq as [Heq _]. eapply Hok; eauto.
   Qed.
 
-  Definition LinInv (d : D) (s : cstate) : Prop := seq_run api d (lin s) = Some (data s) ∧ seq_results_ok api d (lin s).
+  Definition LinInv (d : D) (s : cstate) : Prop := seq_run d (lin s) = Some (data s) ∧ seq_results_ok d (lin s).
 
   Lemma lin_inv_step cap cf d s l s' : LinInv d s → cstep cap cf s l = Some s' → LinInv d s'.
   Proof.
     unfold LinInv. intros [Hrun Hok] Hs. step_cases Hs; simpl in *; try done.
-    split.
-    - rewrite seq_run_app, Hrun. simpl. by match goal with H : api _ _ = _ |- _ => rewrite H end.
-    - eapply seq_results_ok_snoc; [done..|]. by match goal with H : api _ _ = _ |- _ => rewrite H end.
+    all: split; [rewrite seq_run_app, Hrun; simpl | eapply seq_results_ok_snoc; [done..|]; simpl].
+    all: repeat match goal with H : api _ _ = _ |- _ => rewrite H | H : hnd _ _ = _ |- _ => rewrite H
+                           | H : env _ _ = _ |- _ => rewrite H end; simpl; eauto.
   Qed.
 
+  (* Replaying the linearisation — API calls, the reader's critical sections and environment steps, one after another —
+     on the sequential semantics from the initial data yields the current data; every recorded API result is what [api]
+     returns at that point of the replay, every recorded [post] what [hnd] returns there, every environment step is
+     allowed there. *)
   Theorem linearizable cap cf d ls s :
-    crun cap cf (cinit d) ls = Some s → seq_run api d (lin s) = Some (data s) ∧ seq_results_ok api d (lin s).
+    crun cap cf (cinit d) ls = Some s → seq_run d (lin s) = Some (data s) ∧ seq_results_ok d (lin s).
   Proof.
     intros Hr. assert (reachable cap cf d s) as Hre by (by exists ls). clear Hr. revert s Hre.
     apply (reachable_induction cap cf d (LinInv d)).
-    - split; [done|]. intros pre c r post Heq. by destruct pre.
+    - split; [done|]. intros l1 e l2 Heq. by destruct l1.
     - intros s l s' _ HI Hs. by eapply lin_inv_step.
   Qed.
 
@@ -428,15 +534,32 @@ Section Safety.
      return, with the result it returns and computed from the data of that moment; lin only grows at the end *)
   Theorem lin_point cap cf (s : cstate) t c s' :
     t ≠ reader_tid → thr s !! t = Some (CInCs c) → cstep cap cf s (LThr t) = Some s' →
-    ∃ r, thr s' !! t = Some (CDone r) ∧ lin s' = lin s ++ [(c, r)] ∧ api (data s) c = (data s', r) ∧ mu s' = None.
+    ∃ r, thr s' !! t = Some (CDone r) ∧ lin s' = lin s ++ [LinCall c r] ∧ api (data s) c = (data s', r) ∧ mu s' = None.
   Proof.
     intros Ht Hp Hs. simpl in Hs. destruct (decide (t = reader_tid)); [done|].
     unfold Conc.thread_step in Hs. rewrite Hp in Hs. destruct (api (data s) c) as [d' r] eqn:Ha.
     simplify_eq. exists r. simpl. by rewrite lookup_insert.
   Qed.
 
+  (* the same for the reader: an item enters lin at the step of its critical section, with the data of that moment *)
+  Theorem lin_point_reader cap cf (s : cstate) it rest s' :
+    rd s = RInCs it rest → cstep cap cf s (LThr reader_tid) = Some s' →
+    ∃ post, lin s' = lin s ++ [LinHandle it post] ∧ hnd (data s) it = (data s', post) ∧
+            (rd s' = RPost post rest ∧ mu s' = None ∨
+             rd s' = RCsSend (err_msgs post) (ev_msgs post) rest ∧ mu s' = mu s ∧ cf_send_in_cs cf = true).
+  Proof.
+    intros Hrd Hs. unfold Conc.cstep in Hs. rewrite decide_True in Hs by done.
+    unfold Conc.reader_step in Hs. rewrite Hrd in Hs. destruct (hnd (data s) it) as [d' post] eqn:Hh.
+    exists post. destruct (cf_send_in_cs cf); simplify_eq; simpl; (split; [done|]); (split; [done|]); [right|left]; done.
+  Qed.
+
+  Theorem lin_point_env cap cf (s : cstate) k s' :
+    cstep cap cf s (LEnv k) = Some s' →
+    lin s' = lin s ++ [LinEnv k] ∧ env (data s) k = Some (data s') ∧ mu s' = mu s ∧ rd s' = rd s ∧ thr s' = thr s.
+  Proof. intros Hs. simpl in Hs. destruct (env (data s) k); by simplify_eq. Qed.
+
   Theorem lin_mono cap cf s l s' : cstep cap cf s l = Some s' → lin s `prefix_of` lin s'.
-  Proof. intros Hs. step_cases Hs; simpl; try done. by eexists. Qed.
+  Proof. intros Hs. step_cases Hs; simpl; try done. all: by eexists. Qed.
 
   Lemma lin_mono_run cap cf s ls s' : crun cap cf s ls = Some s' → lin s `prefix_of` lin s'.
   Proof.
@@ -446,21 +569,52 @@ Section Safety.
 
   Corollary lin_call_stays cap cf (s : cstate) t c s1 ls s2 :
     t ≠ reader_tid → thr s !! t = Some (CInCs c) → cstep cap cf s (LThr t) = Some s1 → crun cap cf s1 ls = Some s2 →
-    ∃ r, thr s1 !! t = Some (CDone r) ∧ (c, r) ∈ lin s2.
+    ∃ r, thr s1 !! t = Some (CDone r) ∧ LinCall c r ∈ lin s2.
   Proof.
     intros Ht Hp Hs Hr. destruct (lin_point _ _ _ _ _ _ Ht Hp Hs) as (r & Hd & Hl & _). exists r. split; [done|].
     destruct (lin_mono_run _ _ _ _ _ Hr) as [k ->]. rewrite Hl. set_solver.
   Qed.
 
+  (* lin grows — and the data changes — only in a critical-section step (of a caller, or of the reader) or in an
+     environment step *)
   Theorem lin_only_in_cs cap cf s l s' :
-    cstep cap cf s l = Some s' → lin s' ≠ lin s → ∃ t c, l = LThr t ∧ thr s !! t = Some (CInCs c).
-  Proof. intros Hs Hne. step_cases Hs; simpl in *; try done. eauto. Qed.
+    cstep cap cf s l = Some s' → lin s' ≠ lin s →
+    (∃ t c, l = LThr t ∧ t ≠ reader_tid ∧ thr s !! t = Some (CInCs c)) ∨
+    (∃ it rest, l = LThr reader_tid ∧ rd s = RInCs it rest) ∨
+    (∃ k, l = LEnv k).
+  Proof. intros Hs Hne. step_cases Hs; simpl in *; try done; eauto 10. Qed.
+
+  Theorem data_only_in_cs cap cf s l s' :
+    cstep cap cf s l = Some s' → data s' ≠ data s →
+    (∃ t c, l = LThr t ∧ t ≠ reader_tid ∧ thr s !! t = Some (CInCs c)) ∨
+    (∃ it rest, l = LThr reader_tid ∧ rd s = RInCs it rest) ∨
+    (∃ k, l = LEnv k).
+  Proof. intros Hs Hne. step_cases Hs; simpl in *; try done; eauto 10. Qed.
+
+  (* classification of steps by what they do to the shared data, the linearisation and the items the reader holds *)
+  Theorem step_classify cap cf s l s' :
+    cstep cap cf s l = Some s' →
+    (data s' = data s ∧ lin s' = lin s ∧
+     (held (rd s') = held (rd s) ∨ held (rd s') = [] ∨ ∃ b, l = LKernel b ∧ rd s = RRead ∧ rd s' = RBatch b)) ∨
+    (∃ t c r, l = LThr t ∧ t ≠ reader_tid ∧ thr s !! t = Some (CInCs c) ∧ api (data s) c = (data s', r) ∧
+              lin s' = lin s ++ [LinCall c r] ∧ rd s' = rd s) ∨
+    (∃ it rest post, l = LThr reader_tid ∧ rd s = RInCs it rest ∧ hnd (data s) it = (data s', post) ∧
+                     lin s' = lin s ++ [LinHandle it post] ∧ held (rd s') = rest) ∨
+    (∃ k, l = LEnv k ∧ env (data s) k = Some (data s') ∧ lin s' = lin s ++ [LinEnv k] ∧ rd s' = rd s).
+  Proof.
+    intros Hs. step_cases Hs; simpl in *.
+    all: try (left; split; [done|]; split; [done|]; unfold held; simpl; eauto; fail).
+    all: try (right; left; eexists _, _, _; split_and!; done).
+    all: try (right; right; left; eexists _, _, _; split_and!; done).
+    all: try (right; right; right; eexists; split_and!; done).
+    left. split; [done|]. split; [done|]. right. right. by eexists.
+  Qed.
 
   (* ---------- 7. inert after Close ---------- *)
   Theorem inert_after_close cap cf (s : cstate) t c :
     cf_guard_first cf = true → done_closed s = true → thr s !! t = Some (CStart c) → t ≠ reader_tid →
     ∃ s', cstep cap cf s (LThr t) = Some s' ∧ thr s' !! t = Some (CDone (closed_result c)) ∧ data s' = data s
-          ∧ mu s' = mu s.
+          ∧ mu s' = mu s ∧ lin s' = lin s.
   Proof.
     intros Hg Hd Hp Ht. simpl. destruct (decide (t = reader_tid)); [done|].
     unfold Conc.thread_step. rewrite Hp, Hg, Hd. simpl. eexists; split; [done|]. simpl. by rewrite lookup_insert.
@@ -514,27 +668,34 @@ End Safety.
 
 (* ---------- 9. non-vacuity: concrete runs ---------- *)
 Section Examples.
+  (* data: a counter.  An API call c adds c and returns the old value.  An item is a number i: odd items are preceded by
+     the error i (sent before the lock); handling i adds 100 to the counter and sends the event (counter + i) — so the
+     event depends on the data at the moment of the critical section.  Environment step k adds k; 0 is not allowed. *)
   Definition ex_api (d c : nat) : nat * nat := (d + c, d).
   Definition ex_closed (c : nat) : nat := 0.
-  Definition ex_it1 : @item nat nat := mkItem [] [MEv 10].
-  Definition ex_it2 : @item nat nat := mkItem [MEr 7] [MEv 11].
+  Definition ex_pre (i : nat) : list (@msg nat nat) := if Nat.odd i then [MEr i] else [].
+  Definition ex_hnd (d i : nat) : nat * list (@msg nat nat) := (d + 100, [MEv (d + i)]).
+  Definition ex_env (d k : nat) : option nat := if decide (k = 0) then None else Some (d + k).
   Definition ex_cf : cfacts := mkCf false true.
+  Notation ex_crun := (crun ex_api ex_closed ex_pre ex_hnd ex_env).
 
   (* capacity 1: a caller, a batch of two notifications, the reader, the consumer, Close, a call after Close, a second Close *)
   Definition ex_labels : list (@label nat nat nat nat) :=
     [ LSpawn 1 (CStart 5); LThr 1; LThr 1; LThr 1;                  (* Add: isClosed?, Lock, critical section *)
-      LThr 0; LKernel [ex_it1; ex_it2];                             (* the reader blocks in Read; the kernel delivers *)
-      LThr 0; LThr 0; LThr 0; LThr 0; LThr 0; LThr 0;               (* item 1: lock, unlock, event 10 into the buffer *)
-      LThr 0; LConsumeEr; LThr 0; LThr 0; LThr 0;                   (* item 2: error 7 by rendezvous, lock, unlock *)
-      LConsumeEv; LThr 0; LThr 0; LThr 0; LConsumeEv;               (* buffer full until the consumer takes 10; then 11 *)
+      LThr 0; LKernel [10; 7];                                      (* the reader blocks in Read; the kernel delivers *)
+      LThr 0; LThr 0; LThr 0; LThr 0; LThr 0; LThr 0;               (* item 10: lock, critical section (event 5+10), buffer *)
+      LThr 0; LConsumeEr; LThr 0; LThr 0; LThr 0;                   (* item 7: error 7 by rendezvous, lock, critical section *)
+      LConsumeEv; LThr 0; LThr 0; LThr 0; LConsumeEv;               (* buffer full until the consumer takes 15; then 112 *)
       LSpawn 2 KStart; LThr 2; LThr 2; LThr 2;                      (* Close: lock, close(done), close the file *)
       LThr 0; LThr 0; LThr 2; LThr 0; LThr 0;                       (* the reader exits; Close returns *)
       LSpawn 3 (CStart 9); LThr 3;                                  (* a call after Close returns closed_result at once *)
       LSpawn 4 KStart; LThr 4; LThr 4 ].                            (* a second Close closes nothing *)
 
   Example ex_run :
-    match crun ex_api ex_closed 1 ex_cf (cinit 0) ex_labels with
-    | Some s => recvd_ev s = [10; 11] ∧ recvd_er s = [7] ∧ ev_buf s = [] ∧ lin s = [(5, 0)] ∧ data s = 5
+    match ex_crun 1 ex_cf (cinit 0) ex_labels with
+    | Some s => recvd_ev s = [15; 112] ∧ recvd_er s = [7] ∧ ev_buf s = []
+                ∧ lin s = [LinCall 5 0; LinHandle 10 [MEv 15]; LinHandle 7 [MEv 112]] ∧ data s = 205
+                ∧ started s = [10; 7]
                 ∧ thr s !! 1 = Some (CDone 0) ∧ thr s !! 2 = Some KDone ∧ thr s !! 3 = Some (CDone 0)
                 ∧ thr s !! 4 = Some KDone ∧ rd s = RDead ∧ mu s = None ∧ panicked s = false
                 ∧ done_closed s = true ∧ ev_closed s = true ∧ er_closed s = true
@@ -543,28 +704,55 @@ Section Examples.
   Proof. vm_compute. repeat split. Qed.
 
   (* with capacity 1 the reader is blocked while the buffer is full (label 18 replaced by a reader step) *)
-  Example ex_blocked : crun ex_api ex_closed 1 ex_cf (cinit 0) (take 17 ex_labels ++ [LThr 0]) = None.
+  Example ex_blocked : ex_crun 1 ex_cf (cinit 0) (take 17 ex_labels ++ [LThr 0]) = None.
   Proof. vm_compute. reflexivity. Qed.
+
+  (* what is sent depends on the data at the moment of the reader's critical section: the same notification, with an
+     Add (thread 1) and an environment step racing it.  Schedule A: both before the reader's critical section;
+     schedule B: both after.  The events differ (16 vs 10) and lin records the order. *)
+  Example ex_race_A :
+    match ex_crun 0 ex_cf (cinit 0)
+            [ LThr 0; LKernel [10]; LThr 0; LThr 0;                   (* the reader is about to lock *)
+              LSpawn 1 (CStart 5); LThr 1; LThr 1; LThr 1; LEnv 1;    (* Add 5 and env +1 get in first *)
+              LThr 0; LThr 0; LConsumeEv ] with
+    | Some s => recvd_ev s = [16] ∧ lin s = [LinCall 5 0; LinEnv 1; LinHandle 10 [MEv 16]] ∧ data s = 106
+    | None => False
+    end.
+  Proof. vm_compute. repeat split. Qed.
+  Example ex_race_B :
+    match ex_crun 0 ex_cf (cinit 0)
+            [ LThr 0; LKernel [10]; LThr 0; LThr 0;
+              LSpawn 1 (CStart 5); LThr 1;                            (* Add 5 is started … *)
+              LThr 0; LThr 0;                                         (* … but the reader's critical section runs first *)
+              LThr 1; LThr 1; LEnv 1; LConsumeEv ] with
+    | Some s => recvd_ev s = [10] ∧ lin s = [LinHandle 10 [MEv 10]; LinCall 5 100; LinEnv 1] ∧ data s = 106
+    | None => False
+    end.
+  Proof. vm_compute. repeat split. Qed.
+  (* a caller cannot enter while the reader is inside its critical section; a disallowed environment step is no step *)
+  Example ex_race_excluded :
+    ex_crun 0 ex_cf (cinit 0) [ LThr 0; LKernel [10]; LThr 0; LThr 0; LThr 0; LSpawn 1 (CStart 5); LThr 1; LThr 1 ] = None
+    ∧ ex_crun 0 ex_cf (cinit 0) [ LEnv 0 ] = None.
+  Proof. vm_compute. done. Qed.
 
   (* capacity 0: every event is handed over by rendezvous; the consumer receives the same sequence *)
   Definition ex_labels0 : list (@label nat nat nat nat) :=
-    [ LThr 0; LKernel [ex_it1; ex_it2];
+    [ LThr 0; LKernel [10; 7];
       LThr 0; LThr 0; LThr 0; LThr 0; LConsumeEv; LThr 0;
       LThr 0; LConsumeEr; LThr 0; LThr 0; LThr 0; LConsumeEv; LThr 0; LThr 0;
       LSpawn 2 KStart; LThr 2; LThr 2; LThr 2; LThr 0; LThr 0; LThr 2 ].
 
   Example ex_run_unbuffered :
-    match crun ex_api ex_closed 0 ex_cf (cinit 0) ex_labels0 with
-    | Some s => recvd_ev s = [10; 11] ∧ recvd_er s = [7] ∧ thr s !! 2 = Some KDone ∧ panicked s = false
+    match ex_crun 0 ex_cf (cinit 0) ex_labels0 with
+    | Some s => recvd_ev s = [10; 107] ∧ recvd_er s = [7] ∧ thr s !! 2 = Some KDone ∧ panicked s = false
     | None => False
     end.
   Proof. vm_compute. repeat split. Qed.
 
   (* the variant of the code that sends the error while holding mu (cf_send_in_cs = true): same received sequences *)
-  Definition ex_it3 : @item nat nat := mkItem [] [MEv 10; MEr 8].
   Example ex_run_send_in_cs :
-    match crun ex_api ex_closed 1 (mkCf true true) (cinit 0)
-               [ LThr 0; LKernel [ex_it3]; LThr 0; LThr 0; LThr 0; LThr 0; LConsumeEr; LThr 0; LThr 0; LConsumeEv ] with
+    match crun ex_api ex_closed (λ _ : nat, []) (λ d i, (d, [MEv 10; MEr 8])) ex_env 1 (mkCf true true) (cinit 0)
+               [ LThr 0; LKernel [3]; LThr 0; LThr 0; LThr 0; LThr 0; LConsumeEr; LThr 0; LThr 0; LConsumeEv ] with
     | Some s => recvd_ev s = [10] ∧ recvd_er s = [8] ∧ mu s = None
     | None => False
     end.
@@ -575,7 +763,14 @@ Print Assumptions cinv_reachable.
 Print Assumptions no_panic.
 Print Assumptions mutual_exclusion.
 Print Assumptions no_blocking_in_cs.
+Print Assumptions started_shape.
+Print Assumptions items_fifo.
 Print Assumptions events_fifo.
 Print Assumptions errors_fifo.
+Print Assumptions stream_mono.
+Print Assumptions capacity_independent.
 Print Assumptions linearizable.
+Print Assumptions lin_only_in_cs.
+Print Assumptions data_only_in_cs.
+Print Assumptions step_classify.
 Print Assumptions done_closed_by.
